@@ -102,8 +102,9 @@ def gen_code_spec(rng: random.Random, families: Optional[List[str]] = None) -> d
                                  ("hamming1511", 15, 0b10011), ("bch157", 15, 0b111010001), ("rep7", 7, 0b1111111), ("n9k3", 9, 0b1001001)])
         return {"family": fam, "n": n, "g": g, "information_set": rng.choice(["left", "left", "right"])}
     if fam == "bch":
-        mu = rng.choice([3, 3, 4, 4, 4, 5, 5, 6])
-        delta = rng.choice({3: [3, 7], 4: [3, 5, 7, 15], 5: [3, 5, 7, 11, 15, 31], 6: [3, 5, 7, 9, 11, 13, 15, 21, 23, 27, 31]}[mu])
+        mu = rng.choice([2, 3, 3, 4, 4, 4, 5, 5, 6])
+        # every Bose distance the constructor accepts, including those whose true minimum distance is larger (delta = 2; mu = 3, delta = 5)
+        delta = rng.choice({2: [2, 3], 3: [2, 3, 5, 7], 4: [2, 3, 5, 7, 15], 5: [2, 3, 5, 7, 11, 15, 31], 6: [2, 3, 5, 7, 9, 11, 13, 15, 21, 23, 27, 31]}[mu])
         return {"family": fam, "mu": mu, "delta": delta, "information_set": rng.choice(["left", "left", "right"])}
     if fam == "golay":
         return {"family": fam, "extended": rng.random() < 0.5, "information_set": rng.choice(["left", "left", "right"])}
